@@ -73,6 +73,18 @@ def check_maps(c):
         good = good and np.ndim(i1) == 1 and np.array_equal(i1, i)
         if not res.check(good, 'single', dict(c, i=i.tolist()), 'single multi-index differs from the batch'):
             break
+    # equivalent argument forms: NumPy integers / a float power of two for the mode size, other integer dtypes for the indices
+    res.ev()
+    okf = True
+    for nf in (np.int64(n), np.int32(n), float(n), 2.0 ** q):
+        okf = okf and np.array_equal(teneva.ind_tt_to_qtt(pts, nf), E)
+    for qf in (np.int64(q), np.int32(q)):
+        okf = okf and np.array_equal(teneva.ind_qtt_to_tt(E, qf), pts)
+    for dt in (np.int32, np.uint16, np.int16):
+        if n - 1 <= np.iinfo(dt).max:
+            okf = okf and np.array_equal(teneva.ind_tt_to_qtt(pts.astype(dt), n), E) and np.array_equal(teneva.ind_qtt_to_tt(E.astype(dt), q), pts)
+    okf = okf and np.array_equal(teneva.ind_tt_to_qtt(pts.tolist(), n), E) and np.array_equal(teneva.ind_qtt_to_tt(E.tolist(), q), pts)
+    res.check(bool(okf), 'forms', c, 'an equivalent form of n / q / the index array changes the map')
     if c.get('long'):
         res.ev()
         L = c['long']
